@@ -67,7 +67,9 @@ ASSUMPTIONS = [
     "h_to_explicit(its=True) (C10_h_*_any_mode): the typesGH halves stay lowered after implicit-again and bond dictionaries are "
     "normalised ((o, o) pairs, standard_order 0) — stated in the theorems (h_restore_gen, fin_edge), not a loss of the molecule",
     "explicit_hydrogen=True exports: with implicit hydrogens the export adds hydrogen atoms on purpose; the theorem "
-    "(C10_gml_roundtrip_explicit_h_full) says the rule reads back as the ITS with its hydrogens explicit (reindex=False)",
+    "(C10_gml_roundtrip_explicit_h_full, C10_gml_roundtrip_reindex_explicit_h_full) says the rule reads back as the ITS with its "
+    "hydrogens explicit; with reindex=True this needs node ids >= 1 (0-based ids: a hydrogen id collides with a new id and an atom is "
+    "lost, C10_reindex_explicit_h_needs_positive_ids — outside the property's quantifier, observed, regress witness)",
 ]
 TESTED_NOT_PROVED = [
     "SMILES -> graph -> SMILES equals RDKit's canonical SMILES up to stereo: the RDKit half (parse, sanitise, aromaticity perception, write) "
@@ -76,12 +78,11 @@ TESTED_NOT_PROVED = [
     "(graph-level statements are proved: C10_h_total_*, C10_h_explicit_skeleton, C10_h_implicit_skeleton, C10_h_roundtrip)",
     "GML text rendering and the line tokenisation of GMLToNX.transform (glue): correspondence only, through an independent tokenizer",
     "smart_to_gml's RDKit half (rsmi_to_graph): the adapter feeds its output to the model",
-    "core=False (full) exports on ITS graphs outside its_ok; explicit_hydrogen=True together with reindex=True on graphs with "
-    "implicit hydrogens: correspondence + oracle only",
+    "core=False (full) exports on ITS graphs outside its_ok: correspondence + oracle only",
     "graph_to_rsmi / its_to_rsmi / gml_to_smart: modelled up to the two RWMol handed to RDKit (observed on the real call by a spy on "
     "graph_to_smi / GraphToMol.graph_to_mol); what RDKit writes from them is not modelled",
 ]
-LEVEL_TEXT = ("Machine-checked proof (Coq, 42 theorems, closed under the global context) over an executable model of the GML writer/reader at "
+LEVEL_TEXT = ("Machine-checked proof (Coq, 44 theorems, closed under the global context) over an executable model of the GML writer/reader at "
               "record level, of its_to_gml / gml_to_its / smart_to_gml / get_rc / its_decompose / ITSGraph at graph level, of h_to_explicit / "
               "h_to_implicit, and of the attribute copying of MolToGraph / GraphToMol: label round trip for every element symbol and every "
               "charge; ITS -> GML -> ITS restores atoms, both-side charges and (before, after) orders for every reaction-centre-shaped ITS, "
@@ -1481,14 +1482,18 @@ def _oracle_its_graph(I, cfgs, tag):
             if not ok:
                 fails.append(_fail("gml-roundtrip", "%s: gml_to_its(its_to_gml(I, core=%s, reindex=%s, eh=%s)) differs from %s on atoms/charges/orders"
                                    % (tag, core, reindex, eh, "the centre" if core else "I")))
-        if eh and not core and not reindex and all((d.get("hcount", 0) or 0) >= 0 for _, d in I.nodes(data=True)):
-            # explicit_hydrogen on a full ITS: the atoms and bonds of I survive, and every implicit hydrogen of the context
-            # (node attribute hcount) comes back as one hydrogen atom bonded (1, 1) to its atom and to nothing else
+        if eh and not core and all((d.get("hcount", 0) or 0) >= 0 for _, d in I.nodes(data=True)) and \
+                (not reindex or all(isinstance(n, int) and n >= 1 for n in I.nodes)):
+            # explicit_hydrogen on a full ITS: the atoms and bonds of I survive (reindex=True: under the documented renumbering
+            # old id -> position in node order, for ids >= 1), and every implicit hydrogen of the context (node attribute hcount)
+            # comes back as one hydrogen atom bonded (1, 1) to its atom and to nothing else
             back = gml_to_its(text)
+            f = {n: (i + 1 if reindex else n) for i, n in enumerate(I.nodes)}
             sw, sb = _its_struct(I), _its_struct(back)
-            old = set(I.nodes)
+            sw = ({f[n]: a for n, a in sw[0].items()}, {frozenset(f[x] for x in k): v for k, v in sw[1].items()})
+            old = set(f.values())
             if {n: a for n, a in sb[0].items() if n in old} != sw[0] or {k: v for k, v in sb[1].items() if k <= old} != sw[1]:
-                fails.append(_fail("gml-roundtrip", "%s: gml_to_its(its_to_gml(I, core=False, explicit_hydrogen=True)) changes atoms / bonds of I" % tag))
+                fails.append(_fail("gml-roundtrip", "%s: gml_to_its(its_to_gml(I, core=False, reindex=%s, explicit_hydrogen=True)) changes atoms / bonds of I" % (tag, reindex)))
             else:
                 hs = {n: 0 for n in old}
                 bad = None
@@ -1501,12 +1506,12 @@ def _oracle_its_graph(I, cfgs, tag):
                         break
                     hs[nb[0]] += 1
                 if bad is None:
-                    for n in old:
-                        if hs[n] != (I.nodes[n].get("hcount", 0) or 0):
-                            bad = "atom %r has %d implicit hydrogens, the rule read back gives it %d hydrogen atoms" % (n, I.nodes[n].get("hcount", 0) or 0, hs[n])
+                    for n in I.nodes:
+                        if hs[f[n]] != (I.nodes[n].get("hcount", 0) or 0):
+                            bad = "atom %r has %d implicit hydrogens, the rule read back gives it %d hydrogen atoms" % (n, I.nodes[n].get("hcount", 0) or 0, hs[f[n]])
                             break
                 if bad:
-                    fails.append(_fail("gml-roundtrip-explicit-h", "%s: %s" % (tag, bad)))
+                    fails.append(_fail("gml-roundtrip-explicit-h", "%s (reindex=%s): %s" % (tag, reindex, bad)))
         if core and not is_centre:
             text2 = its_to_gml(rc.copy(), core=True, reindex=reindex, explicit_hydrogen=eh)
             rec2 = text_to_rec(text2)
